@@ -22,3 +22,5 @@ package function
 //@   requires len(nextOps) >= 1 ==> len(funcExpr.Args) == len(nextOps)
 //@   ensures[C08] err-is-unsupported: result1 != nil ==> (result1.isNS || result1.isNI) && result0 == nil
 //@   ensures ok-nonnil: result1 == nil ==> result0 != nil
+//@   loop 0 invariant 0 <= i && i <= stepsBatch && len(scalarPoints) == stepsBatch && fresh(scalarPoints)
+//@   loop 1 invariant 0 <= f.vectorIndex && f.vectorIndex < len(funcExpr.Args)
